@@ -247,3 +247,80 @@ def classify_f_body(f, body, exp):
     else:
         labels.append("plane-tangent-face")
     return labels
+
+
+# --------------------------------------------------------------------------
+# inner-call shadow check (DESIGN 2.5): judge the library's own recursive
+# intersection() sub-calls whose operands are exactly liftable
+
+class InnerShadow:
+    """Installed as monitor.ST.inner_hook.  `domain(ka, kb)` says which sub-calls
+    belong to the running property; at most `cap` of them are judged per case,
+    each sampled with probability `p`."""
+
+    def __init__(self, domain, cap=6, p=0.35, seed=1):
+        self.domain = domain
+        self.cap = cap
+        self.p = p
+        self.rng = random.Random(seed)
+        self.stats = {"seen": 0, "in_domain": 0, "not_liftable": 0, "judged": 0, "not_admitted": 0, "mismatch": 0, "cells": {}}
+        self.pending = []
+        self.n_case = 0
+
+    def install(self):
+        M.ST.inner_hook = self
+
+    def new_case(self):
+        self.pending = []
+        self.n_case = 0
+
+    def __call__(self, a, b, res, exc):
+        st = self.stats
+        st["seen"] += 1
+        if exc is not None:
+            return
+        ka, kb = M.kind(a), M.kind(b)
+        if not self.domain(ka, kb):
+            return
+        st["in_domain"] += 1
+        if self.n_case >= self.cap or self.rng.random() > self.p:
+            return
+        from ..desc import exact_of_float
+        da, db = exact_of_float(lower(a)), exact_of_float(lower(b))
+        if da is None or db is None:
+            st["not_liftable"] += 1
+            return
+        self.n_case += 1
+        saved = (K.ST.tol, K.ST.margin, K.ST.decisions)
+        try:
+            K.reset()
+            try:
+                exp = K.inter(da, db)
+            except Exception:
+                st["not_liftable"] += 1
+                return
+            if K.margin() < core.MARGIN:
+                st["not_admitted"] += 1
+                return
+        finally:
+            K.ST.tol, K.ST.margin, K.ST.decisions = saved
+        st["judged"] += 1
+        cell = "%s,%s->%s" % (ka, kb, kname(exp))
+        st["cells"][cell] = st["cells"].get(cell, 0) + 1
+        same, why = same_set(lower(res), exp)
+        if not same:
+            st["mismatch"] += 1
+            self.pending.append(("%s,%s:inner-call:expected-%s-got-%s" % (ka, kb, kname(exp), M.kind(res)),
+                                 "library-internal call intersection(%s, %s) returned %s, exact %s (%s); operands %s / %s" % (
+                                     ka, kb, show_short(lower(res), 120), show_short(exp, 120), why, show_short(da, 160), show_short(db, 160))))
+
+    def finish(self, mu):
+        """fold the mismatches of this case into its verdict"""
+        for key, what in self.pending:
+            mu.fail(key, what)
+        n = self.n_case
+        self.pending = []
+        return n
+
+    def report(self):
+        return {"inner_shadow": {k: v for k, v in self.stats.items() if k != "cells"}, "inner_shadow_cells": dict(self.stats["cells"])}
